@@ -6,7 +6,8 @@ patch="$1"; pid="$2"; shift 2
 cd "$(dirname "$0")/.."
 if ! git -C /repo diff --quiet; then echo "refusing: /repo has uncommitted changes"; exit 2; fi
 git -C /repo apply "$patch" || { echo "patch does not apply"; exit 2; }
-./check "$pid" "$@"
+# evidence of runs against a changed tree must not replace the evidence of the unchanged tree
+VERIF_EVIDENCE_DIR="$(pwd)/replays/tmp/mutant-evidence" ./check "$pid" "$@"
 rc=$?
 git -C /repo checkout -- .
 echo "exit=$rc"
